@@ -78,6 +78,21 @@ Proof.
   destruct (spec_deliveries_split fs Hv) as (H1 & _). rewrite H1. apply consume_deliveries.
 Qed.
 
+Lemma final_deliveries : forall ds p c off,
+  final_offsets p c (deliveries_from off ds) = spec_final_from p c off ds.
+Proof.
+  induction ds as [|f r IH]; intros p c off; [reflexivity|].
+  cbn [deliveries_from final_offsets spec_final_from]. apply IH.
+Qed.
+
+(* the offsets that remain reported after the scan has ended *)
+Theorem final_offsets_exact : forall fs, valid_file fs = true ->
+  final_offsets 0 0 (deliveries (scan current fs (total_size fs))) = spec_final fs.
+Proof.
+  intros fs Hv. rewrite (scan_valid fs Hv). cbn [deliveries]. unfold spec_final.
+  destruct (spec_deliveries_split fs Hv) as (H1 & _). rewrite H1. apply final_deliveries.
+Qed.
+
 Lemma objs_of_cons : forall f ds, objs_of (f :: ds) = frame_objs f ++ objs_of ds.
 Proof. reflexivity. Qed.
 
